@@ -136,7 +136,11 @@ def _string_to_number(text: str) -> Union[int, float]:
     if s == "":
         return 0
     if _STR_RADIX.match(s):
-        return float(int(s[2:], {"x": 16, "o": 8, "b": 2}[s[1].lower()]))
+        value = int(s[2:], {"x": 16, "o": 8, "b": 2}[s[1].lower()])
+        try:
+            return float(value)
+        except OverflowError:  # beyond the largest double
+            return float("inf")
     if not _STR_DECIMAL.match(s):
         return float("nan")
     if s.endswith("Infinity"):
